@@ -73,7 +73,7 @@ func genC18(seed uint64, run int, tier string) Scenario {
 	var cmd string
 	// a slow dialogue: every answer after the first takes three fifths of the timeout, so that each
 	// stage is well inside its own timeout while the dialogue as a whole outlasts it
-	slowSteps := steps >= 2 && r.IntN(8) == 0
+	slowSteps := steps >= 3 && r.IntN(4) == 0
 	for i := 0; i < steps; i++ {
 		m := &peer.Mode{Name: fmt.Sprintf("s:%d", i), Prompt: pick(r, "", "? ", "[y/n]: ")}
 		rep := &peer.Reply{Out: text(), Next: m.Name}
@@ -194,6 +194,53 @@ func genC18(seed uint64, run int, tier string) Scenario {
 	}
 	sc.Class = "generic/callbacks"
 	sc.CutEnum = pickCutEnum(run, 10)
+	if slowSteps {
+		sc.Class = "generic/callbacks/slow"
+	}
+	if r.IntN(16) == 0 {
+		// a slow chain: every stage is answered after three fifths of the timeout and satisfies the
+		// next callback, the last one completes -- each stage is inside its own timeout, the
+		// dialogue as a whole takes longer than one timeout
+		n := between(r, 3, 4)
+		exec.Cmds = map[string]*peer.Reply{}
+		c0 := "zx " + word(r, digits, 1, 5) + "_0"
+		sc.Dev.Modes = []*peer.Mode{exec}
+		var cbs []CallbackSpec
+		prevMode := exec
+		for i := 0; i < n; i++ {
+			tok := fmt.Sprintf("stage%dtoken%s", i, word(r, digits, 3, 5))
+			rep := &peer.Reply{Out: []peer.Tok{{S: "now " + tok + " shown"}}}
+			if i > 0 {
+				rep.Out[0].Delay = Micro(sc.TimeoutOpsUS * 3 / 5)
+			}
+			cb := CallbackSpec{Name: fmt.Sprintf("cb%d", i), Contains: tok}
+			if i == n-1 {
+				cb.Complete = true
+				rep.Next = "exec"
+			} else {
+				m := &peer.Mode{Name: fmt.Sprintf("s:%d", i), Prompt: pick(r, "", "? ")}
+				sc.Dev.Modes = append(sc.Dev.Modes, m)
+				rep.Next = m.Name
+				cb.Write = fmt.Sprintf("zy %s_%d", word(r, digits, 1, 6), i)
+			}
+			if i == 0 {
+				prevMode.Cmds[c0] = rep
+			} else {
+				prevMode.Default, prevMode.Empty = rep, rep
+			}
+			if rep.Next != "exec" {
+				prevMode = sc.Dev.Modes[len(sc.Dev.Modes)-1]
+			}
+			cbs = append(cbs, cb)
+		}
+		r.Shuffle(len(cbs), func(i, j int) { cbs[i], cbs[j] = cbs[j], cbs[i] })
+		sc.Ops = []OpSpec{{Kind: "callbacks", Cmd: c0, Callbacks: cbs}, {Kind: "close"}}
+		sc.Holds = nil
+		sc.CutEnum = false
+		sc.Class = "generic/callbacks/slow-chain"
+
+		return sc
+	}
 	if r.IntN(16) == 0 {
 		// a once-callback whose function fails, and the caller using the same callback objects for
 		// a second send whose output satisfies the trigger again: "never runs twice" -- the second
@@ -358,6 +405,25 @@ func runC18(env *Env, s Scenario) {
 	}
 	env.Context = func() string {
 		return sr.Summary() + fmt.Sprintf("callbacks: %+v\nchunks: %q\nreference fired: %q\nobserved fired:  %q\n", op.Callbacks, chunks, fired, rec.CbFired)
+	}
+	if rec.Class == "timeout" && len(sc.Holds) == 0 && len(rec.CbTimes) == len(rec.CbFired) {
+		// a timeout may only be reported once the stage in progress has had its whole timeout: the
+		// operation's, or the next-timeout of the last callback that set one
+		start, to := rec.Start, sc.EffTimeout(op)
+		for i, f := range rec.CbFired {
+			name, _, _ := strings.Cut(f, "|")
+			for k := range op.Callbacks {
+				if op.Callbacks[k].Name == name {
+					start = rec.CbTimes[i]
+					if op.Callbacks[k].NextTimeUS > 0 {
+						to = oddTimeout(Micro(op.Callbacks[k].NextTimeUS))
+					}
+				}
+			}
+		}
+		if rec.End-start < to-time.Microsecond {
+			env.Fail("timeout-before-its-time", "", "timeout error at %v, but the stage in progress began at %v (operation start or last callback) and is entitled to %v", rec.End, start, to)
+		}
 	}
 	if rec.Class != wantClass {
 		env.Fail("wrong-outcome:"+rec.Class+"-instead-of-"+wantClass, "", "SendWithCallbacks returned %v (class %q); the reference on the delivered chunks gives class %q", rec.Err, rec.Class, wantClass)
